@@ -1271,7 +1271,12 @@ func (g *gen) ioStmt() {
 		}
 		return vs[g.draw(0, len(vs)-1, what)], true
 	}
-	switch g.draw(0, 12, "io") {
+	switch g.draw(0, 14, "io") {
+	case 13, 14:
+		if g.o.ChunkOblivious {
+			break
+		}
+		g.ioLimitStmt(u32s)
 	case 10, 11, 12:
 		g.fastSeq()
 	case 0:
@@ -1361,6 +1366,62 @@ func (g *gen) ioStmt() {
 				g.line("%s = (args.src.length() & 0xFFFF) as base.u32", v.name)
 			}
 		}
+	}
+}
+
+// ioLimitStmt emits an io_limit block over args.src: under a small (variable or
+// constant) limit the block looks at the visible length, peeks under a length
+// guard, or runs a private coroutine whose status is captured (a suspension at
+// the limit is not an error: the callee resumes at the next call).
+func (g *gen) ioLimitStmt(u32s []variable) {
+	lim := fmt.Sprintf("(%d as base.u64)", g.draw(0, 9, "limc"))
+	if g.chance(60, "limvar") {
+		w := []int{8, 32, 64}[g.draw(0, 2, "limw")]
+		if v, ok := g.simpleRecv(w); ok {
+			m := []int{1, 3, 7, 15}[g.draw(0, 3, "limm")]
+			if w == 64 {
+				lim = fmt.Sprintf("(%s & %d)", v, m)
+			} else {
+				lim = fmt.Sprintf("((%s & %d) as base.u64)", v, m)
+			}
+		}
+	}
+	kind := g.draw(0, 2, "limkind")
+	if kind == 2 && len(g.coros) == 0 {
+		kind = 0
+	}
+	if len(u32s) == 0 {
+		kind = 2
+		if len(g.coros) == 0 {
+			return
+		}
+	}
+	g.line("io_limit (io: args.src, limit: %s) {", lim)
+	g.depth++
+	switch kind {
+	case 0:
+		v := u32s[g.draw(0, len(u32s)-1, "limv")]
+		g.line("%s = (args.src.length() & 0xFFFF) as base.u32", v.name)
+	case 1:
+		v := u32s[g.draw(0, len(u32s)-1, "limv")]
+		g.line("if args.src.length() >= 2 {")
+		g.line("    %s = args.src.peek_u16le_as_u32()", v.name)
+		g.line("    args.src.skip_u32_fast!(actual: 2, worst_case: 2)")
+		g.line("}")
+	default:
+		ci := g.draw(0, len(g.coros)-1, "limco")
+		callArgs := "src: args.src"
+		if ci < len(g.coroArg) && g.coroArg[ci] {
+			callArgs += ", w: cw"
+		}
+		g.line("st =? this.%s?(%s)", g.coros[ci], callArgs)
+	}
+	g.depth--
+	g.line("}")
+	if kind == 2 {
+		g.line("if st.is_error() {")
+		g.line("    return st")
+		g.line("}")
 	}
 }
 
